@@ -60,6 +60,7 @@ type Ctx struct {
 const fnvOff = 14695981039346656037
 const fnvPrime = 1099511628211
 
+//go:norace
 func (x *Ctx) mix(s string) {
 	h := x.h
 	for i := 0; i < len(s); i++ {
@@ -71,6 +72,7 @@ func (x *Ctx) mix(s string) {
 	x.h = h
 }
 
+//go:norace
 func (x *Ctx) mixo(s string) {
 	h := x.ho
 	for i := 0; i < len(s); i++ {
@@ -82,6 +84,7 @@ func (x *Ctx) mixo(s string) {
 	x.ho = h
 }
 
+//go:norace
 func (x *Ctx) choose(n int, label string, free bool) int {
 	if n <= 0 {
 		panic(fmt.Sprintf("explore: Choose(%d) at %q", n, label))
@@ -116,15 +119,23 @@ func (x *Ctx) choose(n int, label string, free bool) int {
 }
 
 // Choose returns a value in [0,n); 0 is the default, anything else costs one deviation.
+//
+//go:norace
 func (x *Ctx) Choose(n int, label string) int { return x.choose(n, label, false) }
 
 // Pick returns a value in [0,n) of a free dimension (enumerated completely).
+//
+//go:norace
 func (x *Ctx) Pick(n int, label string) int { return x.choose(n, label, true) }
 
 // Bool is Choose(2) as a boolean.
+//
+//go:norace
 func (x *Ctx) Bool(label string) bool { return x.choose(2, label, false) == 1 }
 
 // Obs records an observation of the implementation (folded into the state/outcome hash).
+//
+//go:norace
 func (x *Ctx) Obs(format string, a ...any) {
 	s := format
 	if len(a) > 0 {
@@ -142,6 +153,8 @@ func (x *Ctx) Obs(format string, a ...any) {
 }
 
 // Logf adds a line to the replay log only (not hashed).
+//
+//go:norace
 func (x *Ctx) Logf(format string, a ...any) {
 	if x.Verbose {
 		x.log = append(x.log, fmt.Sprintf(format, a...))
@@ -150,12 +163,18 @@ func (x *Ctx) Logf(format string, a ...any) {
 
 // NonTrivial marks the execution as one in which the code under test produced/consumed
 // protocol data (used for distinct_nontrivial).
+//
+//go:norace
 func (x *Ctx) NonTrivial() { x.nontriv = true }
 
 // Deviations returns the number of deviations taken so far.
+//
+//go:norace
 func (x *Ctx) Deviations() int { return x.devs }
 
 // Failf reports a violation and ends the execution.
+//
+//go:norace
 func (x *Ctx) Failf(key, format string, a ...any) {
 	if x.fail == nil {
 		x.fail = &Failure{Key: key, Msg: fmt.Sprintf(format, a...)}
@@ -164,6 +183,8 @@ func (x *Ctx) Failf(key, format string, a ...any) {
 }
 
 // Check is Failf unless ok.
+//
+//go:norace
 func (x *Ctx) Check(ok bool, key, format string, a ...any) {
 	if !ok {
 		x.Failf(key, format, a...)
@@ -173,6 +194,8 @@ func (x *Ctx) Check(ok bool, key, format string, a ...any) {
 // Prune ends the execution if the canonical state key was already expanded with at least
 // the remaining deviation budget (state-hash pruning).  Only has an effect beyond the
 // replayed prefix.
+//
+//go:norace
 func (x *Ctx) Prune(key string) {
 	if x.sc == nil || !x.sc.prune || len(x.trace) < len(x.prefix) {
 		return
@@ -251,6 +274,10 @@ type Options struct {
 	MaxFailKeys int
 	WantSamples int
 }
+
+// Announce, when set, is told which execution is about to start (race flavour: the parent
+// attributes a ThreadSanitizer report to the execution announced last).
+var Announce func(string)
 
 // OnExecStart, when set, runs before every execution (used to reset deterministic sources).
 var OnExecStart func()
@@ -351,7 +378,11 @@ func exploreOne(sc *Scenario, opt Options, res *Result, failKeys map[string]*Fai
 		}
 		prefix := stack[len(stack)-1]
 		stack = stack[:len(stack)-1]
-		Current.Store(fmt.Sprintf("%s %v", sc.Name, prefix))
+		if Announce != nil {
+			Announce(fmt.Sprintf("%s %v", sc.Name, prefix))
+		} else {
+			Current.Store(fmt.Sprintf("%s %v", sc.Name, prefix))
+		}
 		x := Exec(sc, prefix, false, run)
 		Progress.Add(1)
 		execs++
@@ -484,7 +515,11 @@ func DeterminismGuard(scs []*Scenario) error {
 }
 
 // Log returns the verbose log of the execution.
+//
+//go:norace
 func (x *Ctx) Log() []string { return x.log }
 
 // Failure returns the violation found in this execution, if any.
+//
+//go:norace
 func (x *Ctx) Failure() *Failure { return x.fail }
